@@ -65,7 +65,7 @@ def annotation_case(args):
     argv = ["--output", out, "--reference", paths["ref"], "--bam", paths["bam"], "--data_type", "nanopore", "--prefix", "OUT",
             "--threads", "1", "--genedb", ann] + (["--complete_genedb"] if complete else [])
     errs = []
-    if cache in ("cached", "stale") and rep != "db":
+    if cache in ("cached", "stale", "overwritten") and rep != "db":
         # first run populates the per-user cache; the second one must hit it (or detect staleness)
         pre = os.path.join(d, "pre")
         argv_pre = list(argv)
@@ -76,6 +76,26 @@ def annotation_case(args):
         if cache == "stale":
             st = os.stat(ann)
             os.utime(ann, (st.st_atime, st.st_mtime + 100))
+        if cache == "overwritten":
+            # another annotation with the same base name is converted into the same output folder (--force): the cached db
+            # file of the first annotation is replaced by the conversion of a different input
+            import time
+            w2 = the_world()
+            w2["genes"] = [g for g in w2["genes"] if g["id"] != "GA0"]
+            odir = os.path.join(d, "other")
+            os.makedirs(odir, exist_ok=True)
+            other = syn.write_gtf(w2, os.path.join(odir, "annot.gtf"))
+            if rep == "gtf.gz":
+                with open(other, "rb") as fi, gzip.open(other + ".gz", "wb") as fo:
+                    fo.write(fi.read())
+                other += ".gz"
+            time.sleep(0.02)
+            argv_o = list(argv)
+            argv_o[1] = pre
+            argv_o[argv_o.index("--genedb") + 1] = other
+            rc = run.run_isoquant(argv_o + ["--force"], home, os.path.join(d, "other.txt"))
+            if rc != 0:
+                errs.append(("run-failed", "overwriting run exit %d" % rc))
     rc = run.run_isoquant(argv, home, os.path.join(d, "o.txt"))
     if rc != 0:
         errs.append(("run-failed", "exit %d: %s" % (rc, open(os.path.join(d, "o.txt")).read()[-300:])))
@@ -163,7 +183,7 @@ def run(ctx):
     jobs = []
     for rep in ("gtf", "gtf.gz", "db"):
         for complete in (1, 0):
-            for cache in (("fresh", "cached", "stale") if rep != "db" else ("fresh",)):
+            for cache in (("fresh", "cached", "stale", "overwritten") if rep != "db" else ("fresh",)):
                 jobs.append((rep, complete, cache, ctx.scratch))
     n_ann = 0
     for key, errs in core.pmap(annotation_case, jobs):
